@@ -73,6 +73,8 @@ SeqToSet(s) == {s[i] : i \in 1..Len(s)}
 (* Description accessors.                                                   *)
 (*  desc.cmds  : command name |-> record                                    *)
 (*     tool  "shell" | "phony" | "mkdir" | "symlink" | "stale"              *)
+(*           (symlink: outs[1] is the link, tag its contents, ins are only  *)
+(*            followed, never read)                                         *)
 (*     ins, outs : sequences of node names                                  *)
 (*     sigx  : everything else that is signature relevant (arguments,       *)
 (*             environment, deps settings, explicit signature ...), opaque  *)
@@ -98,7 +100,8 @@ Producers(n) == {c \in Cmds : \E i \in 1..Len(Cmd(c).outs) : Cmd(c).outs[i] = n}
 ProducerOf(n) == CHOOSE c \in Producers(n) : TRUE
 
 (* signatures: the tuple of signature-relevant fields (the implementation hashes it) *)
-CmdSig(c) == <<"cmd", c, Cmd(c).tool, Cmd(c).ins, Cmd(c).outs, Cmd(c).ami, Cmd(c).amo, Cmd(c).aood, Cmd(c).sigx>>
+CmdSig(c) == IF Cmd(c).tool = "symlink" THEN <<"symlink", Cmd(c).outs[1], Cmd(c).tag, Cmd(c).ins>>     \* (no command name in it)
+             ELSE <<"cmd", c, Cmd(c).tool, Cmd(c).ins, Cmd(c).outs, Cmd(c).ami, Cmd(c).amo, Cmd(c).aood, Cmd(c).sigx>>
 NodeSig(n) == <<"node", NodeRec(n).kind, Producers(n)>>       \* BuildNode::getSignature: type and producer names
 SigOf(k) ==
   CASE k.t = "C" -> IF k.n \in Cmds THEN CmdSig(k.n) ELSE <<"missing-command">>
@@ -190,6 +193,8 @@ CmdValid(c, v, F) ==
          /\ Len(v.i) = Len(d.outs)
          /\ \A j \in 1..Len(d.outs) : IsVirtual(d.outs[j]) \/ v.i[j] = Info(F, PathOf(d.outs[j]))
     [] d.tool = "mkdir" -> v.k = "SuccessfulCommand" /\ F[PathOf(d.outs[1])].t = "dir"
+    [] d.tool = "symlink" -> /\ v.k = "SuccessfulCommand" /\ Len(v.i) = 1
+                             /\ Exists(F, PathOf(d.outs[1])) /\ v.i[1] = Info(F, PathOf(d.outs[1]))
     [] OTHER -> FALSE                      \* stale-file-removal always runs
 ValidNow(k, v, F) ==
   CASE k.t = "T" -> FALSE
@@ -313,7 +318,15 @@ RunRule(k, S0, reason, inp) ==
              skips == {SkipFor(c, vals[i]) : i \in 1..Len(vals)}
              ideps == DepsOf(ks)
          IN
-         IF d.tool = "stale" THEN
+         IF d.tool = "symlink" THEN     \* inputs are must-follow; the link is (re)created whatever is in its place
+           LET p == PathOf(d.outs[1])
+               F1 == MkDirs(S1.fs, S1.fs[p].par)
+               F2 == IF Exists(F1, p) THEN RemoveTree(F1, p) ELSE F1
+               F3 == [F2 EXCEPT ![p].t = "link", ![p].c = d.tag, ![p].s = @ + 1]
+               F4 == IF F3[p].par = "" THEN F3 ELSE Bump(F3, F3[p].par)
+               S2 == [S1 EXCEPT !.fs = F4, !.ran = Append(@, c), !.status = Append(@, [c |-> c, s |-> "Succeeded"])]
+           IN Finish(S2, k, VSuccess(<<Info(F4, p)>>), FALSE, [i \in 1..Len(ks) |-> Dep(ks[i], TRUE)])
+         ELSE IF d.tool = "stale" THEN
            LET rm == IF priorDue THEN StaleToRemove(c, prior.val) ELSE <<>>
                S2 == [S1 EXCEPT !.fs = RemoveAll(@, rm), !.removed = @ \o rm,
                                 !.ran = Append(@, c), !.status = Append(@, [c |-> c, s |-> "Succeeded"])]
